@@ -9,6 +9,7 @@ import ZChain.Generated.C20
      item: `F=n<dec>;F=s<text>;F=l<a>,<b>;F=m<k>:<dec>,<k>:<dec>` (fields separated by `;`)
 `merge`                                              mergeEvents on the emitted events            → `ok M… ; O…` | `invalid` | `panic`
 `handle`                                             the three bridge handlers on the merge result → `bt=… burn=… users=… mint=…`
+`rows`                                               the merged events applied in list order to the table stand-ins → `rows <table>:[k:v,…] …`
 `process <fail|ok>`                                  ProcessEvents on the emitted events (real worker, transaction, commit or rollback);
                                                      `fail` = the burn_tickets insert fails once          → `err=<0|1> tickets=<n> events=<n>`
 
@@ -121,6 +122,44 @@ def handle (evs : List Event) (r : Result) : String :=
       let (u, mi) := bridgeMintRows t m.items; (showPairs u, showPairs mi, dbTotals ids mi)
   s!"bt={bt} burn={burn} users={users} mint={mint} dbburn={dbburn} dbmint={dbmint}"
 
+/-- tables of the stand-in (one value column each, and the one update tag that writes that column): (id, insert tag, update tags, key field, value field, additive update: tag and map field) -/
+structure TblSpec where
+  id : Nat
+  ins : Nat
+  upds : List Nat
+  key : String
+  val : String
+  add : Option (Nat × String) := none
+
+def tblSpecs : List TblSpec := [
+  { id := 1, ins := Gen.TagInsertReadpool, upds := [Gen.TagUpdateReadpool], key := "UserID", val := "Balance" },
+  { id := 2, ins := Gen.TagAddBlobber, upds := [Gen.TagUpdateBlobberTotalStake], key := "ID", val := "TotalStake" },
+  { id := 3, ins := Gen.TagAddAuthorizer, upds := [Gen.TagUpdateAuthorizerTotalStake], key := "ID", val := "TotalStake" },
+  { id := 4, ins := Gen.TagAddMiner, upds := [Gen.TagUpdateMinerTotalStake], key := "ID", val := "TotalStake" },
+  { id := 5, ins := Gen.TagAddSharder, upds := [Gen.TagUpdateSharderTotalStake], key := "ID", val := "TotalStake" },
+  { id := 6, ins := Gen.TagAddOrOverwiteValidator, upds := [Gen.TagUpdateValidatorStakeTotal], key := "ID", val := "TotalStake" },
+  { id := 7, ins := Gen.TagAddAllocation, upds := [Gen.TagUpdateAllocation], key := "AllocationID", val := "Size" },
+  { id := 10, ins := Gen.TagAddDelegatePool, upds := [], key := "PoolID", val := "Reward", add := some (Gen.TagStakePoolReward, "DelegateRewards") }]
+
+def mapField (it : Item) (f : String) : List (String × Nat) :=
+  match getField it f with
+  | some (.nmap m) => m
+  | _ => []
+
+/-- the row operations of one table, in the order the merged events are applied -/
+def rowOps (sp : TblSpec) (merged : List Merged) : List RowOp :=
+  merged.flatMap fun m =>
+    if m.tag = sp.ins then m.items.map fun it => .insert (strField it sp.key) (numField it sp.val)
+    else if sp.upds.contains m.tag then m.items.map fun it => .update (strField it sp.key) (numField it sp.val)
+    else match sp.add with
+      | some (t, f) => if m.tag = t then m.items.flatMap fun it => (mapField it f).map fun (k, v) => .add k v else []
+      | none => []
+
+def showRows (merged : List Merged) : String :=
+  " ".intercalate ("rows" :: tblSpecs.filterMap fun sp =>
+    let tbl := applyRows [] (rowOps sp merged)
+    if tbl.isEmpty then none else some (s!"{sp.id}:" ++ showPairs tbl))
+
 def step (st : St) (ws : List String) : St × String :=
   match ws with
   | ["block", r, h] => ({ round := r, hash := h }, "ok")
@@ -134,6 +173,10 @@ def step (st : St) (ws : List String) : St × String :=
   | ["merge"] =>
     let r := mergeEvents Gen.table st.evs.reverse
     ({ st with res := some r }, showResult st r)
+  | ["rows"] =>
+    match mergeEvents Gen.table st.evs.reverse with
+    | .ok r => (st, showRows r.merged)
+    | .error _ => (st, "nomerge")
   | ["process", mode] =>
     if mode ≠ "fail" ∧ mode ≠ "ok" then (st, "bad-op") else
     match mergeEvents Gen.table st.evs.reverse with
